@@ -95,3 +95,137 @@ func PhiEdgeReaches(phi *ssa.Phi, i int, use ssa.Instruction) bool {
 	}
 	return false
 }
+
+// FeasibleReach: is block target reachable from the entry of fn, without the removed edges,
+// along a path that is consistent with what the path itself establishes about nil tests?
+// The search keeps, per path, the truth of the nil-test atoms decided by the branches taken
+// and the operand each phi received on the edge taken (so `err := f(); if err == nil { err =
+// g() }; if err != nil { return err }; return nil` is understood: the final return is not
+// reachable from the edge on which f's error was non-nil). Only nil tests are tracked; the
+// search is bounded and answers "reachable" when the bound is hit.
+func FeasibleReach(fn *ssa.Function, removed map[Edge]bool, target *ssa.BasicBlock) bool {
+	type state struct {
+		b     *ssa.BasicBlock
+		facts map[string]bool
+		binds map[ssa.Value]ssa.Value
+	}
+	keyOf := func(s state) string {
+		k := s.b.String()
+		var parts []string
+		for a, v := range s.facts {
+			if v {
+				parts = append(parts, a+"=T")
+			} else {
+				parts = append(parts, a+"=F")
+			}
+		}
+		for p, v := range s.binds {
+			parts = append(parts, p.Name()+"<-"+v.Name())
+		}
+		sortStrings(parts)
+		for _, p := range parts {
+			k += "|" + p
+		}
+		return k
+	}
+	isNilTest := func(v ssa.Value) bool {
+		bo, ok := v.(*ssa.BinOp)
+		return ok && (isNilConst(bo.X) || isNilConst(bo.Y))
+	}
+	seen := map[string]bool{}
+	work := []state{{fn.Blocks[0], map[string]bool{}, map[ssa.Value]ssa.Value{}}}
+	steps := 0
+	for len(work) > 0 {
+		s := work[len(work)-1]
+		work = work[:len(work)-1]
+		if s.b == target {
+			return true
+		}
+		k := keyOf(s)
+		if seen[k] {
+			continue
+		}
+		seen[k] = true
+		steps++
+		if steps > 20000 {
+			return true
+		}
+		succs := s.b.Succs
+		var lit *Lit
+		if iff, ok := lastIf(s.b); ok && len(succs) == 2 && succs[0] != succs[1] {
+			cv, neg := BoolCond(iff.Cond)
+			if isNilTest(cv) {
+				old := sigValSubst
+				sigValSubst = s.binds
+				l := mkLit(cv, true)
+				sigValSubst = old
+				if val, known := s.facts[l.Atom]; known {
+					cvTrue := val == l.Pos
+					if cvTrue != neg {
+						succs = succs[:1]
+					} else {
+						succs = succs[1:]
+					}
+				} else {
+					ll := l
+					lit = &ll
+					_ = neg
+				}
+			}
+		}
+		for _, nx := range succs {
+			if removed[Edge{s.b, nx}] {
+				continue
+			}
+			nf := map[string]bool{}
+			for a, v := range s.facts {
+				nf[a] = v
+			}
+			if lit != nil {
+				iff, _ := lastIf(s.b)
+				_, neg := BoolCond(iff.Cond)
+				condTrue := nx == s.b.Succs[0]
+				cvTrue := condTrue != neg
+				// atom value: l.Pos when cv true
+				if cvTrue {
+					nf[lit.Atom] = lit.Pos
+				} else {
+					nf[lit.Atom] = !lit.Pos
+				}
+			}
+			nb := map[ssa.Value]ssa.Value{}
+			for p, v := range s.binds {
+				nb[p] = v
+			}
+			pi := -1
+			for i, p := range nx.Preds {
+				if p == s.b {
+					pi = i
+				}
+			}
+			for _, ins := range nx.Instrs {
+				phi, ok := ins.(*ssa.Phi)
+				if !ok {
+					break
+				}
+				if pi >= 0 && pi < len(phi.Edges) {
+					e := phi.Edges[pi]
+					if b2, ok := s.binds[e]; ok {
+						e = b2
+					}
+					nb[phi] = e
+				}
+			}
+			work = append(work, state{nx, nf, nb})
+		}
+	}
+	return false
+}
+
+func sortStrings(a []string) {
+	for i := 1; i < len(a); i++ {
+		for j := i; j > 0 && a[j] < a[j-1]; j-- {
+			a[j], a[j-1] = a[j-1], a[j]
+		}
+	}
+}
